@@ -354,3 +354,306 @@ Proof.
   destruct (forallb (entry_ok sc) es); [|reflexivity].
   rewrite zipw_zeros. f_equal. apply map_ext. intros fd. apply final_zero.
 Qed.
+
+(* Prop reading of typed_okb *)
+Definition well_typed (sc : schema) (v : json) : Prop :=
+  (v = JNull \/ exists es, v = JObj es) /\
+  forall key x nm t, In (key, x) (entries v) -> In (nm, t) sc -> fold_name key = fold_name nm -> kind_ok t x = true.
+
+Lemma typed_okb_iff : forall sc v, typed_okb sc v = true <-> well_typed sc v.
+Proof.
+  intros sc v. unfold typed_okb, well_typed. rewrite andb_true_iff, forallb_forall. split.
+  - intros [O F]. split.
+    + destruct v; try discriminate; [left; reflexivity | right; eexists; reflexivity].
+    + intros key x nm t Hin Hsc Hf. specialize (F _ Hin). unfold entry_ok in F.
+      rewrite forallb_forall in F. specialize (F _ Hsc). cbn [fst snd] in F.
+      unfold names_key in F. rewrite Hf, beq_refl in F. exact F.
+  - intros [O F]. split.
+    + destruct O as [->|[es ->]]; reflexivity.
+    + intros [key x] Hin. unfold entry_ok. apply forallb_forall. intros [nm t] Hsc. cbn [fst snd].
+      destruct (names_key nm key) eqn:E; [|reflexivity]. cbn [negb orb].
+      unfold names_key in E. apply beq_eq in E. eapply F; eassumption.
+Qed.
+
+(* boolean NoDup for the concrete schemas *)
+Fixpoint nodupb (l : list bytes) : bool :=
+  match l with
+  | [] => true
+  | x :: r => negb (existsb (beq x) r) && nodupb r
+  end.
+Lemma nodupb_sound : forall l, nodupb l = true -> NoDup l.
+Proof.
+  induction l as [|x l IH]; intros H; [constructor|].
+  cbn in H. apply andb_true_iff in H as [H1 H2]. constructor; [|apply IH; assumption].
+  intros Hin. apply negb_true_iff in H1.
+  assert (existsb (beq x) l = true) by (apply existsb_exists; exists x; split; [assumption | apply beq_refl]).
+  congruence.
+Qed.
+Ltac nodup_schema := unfold nodup_folds; apply nodupb_sound; vm_compute; reflexivity.
+
+Lemma nodup_poll_req : nodup_folds poll_req_schema. Proof. nodup_schema. Qed.
+Lemma nodup_poll_resp : nodup_folds poll_resp_schema. Proof. nodup_schema. Qed.
+Lemma nodup_answer_req : nodup_folds answer_req_schema. Proof. nodup_schema. Qed.
+Lemma nodup_answer_resp : nodup_folds answer_resp_schema. Proof. nodup_schema. Qed.
+Lemma nodup_client_req : nodup_folds client_req_schema. Proof. nodup_schema. Qed.
+Lemma nodup_client_resp : nodup_folds client_resp_schema. Proof. nodup_schema. Qed.
+
+(* ------------------------------------------------------------------ the protocol's reading of a message *)
+Definition fstr (v : json) (nm : string) : bytes := last_str (hits (bs nm) (entries v)) [].
+Definition fint (v : json) (nm : string) : Z := last_int (hits (bs nm) (entries v)) 0%Z.
+Definition fptr (v : json) (nm : string) : option bytes := last_ptr (hits (bs nm) (entries v)) None.
+
+Definition valid_nat (n : bytes) : Prop :=
+  n = [] \/ n = NAT_UNKNOWN \/ n = NAT_RESTRICTED \/ n = NAT_UNRESTRICTED.
+Definition valid_natb (n : bytes) : bool :=
+  beq n [] || beq n NAT_UNKNOWN || beq n NAT_RESTRICTED || beq n NAT_UNRESTRICTED.
+Definition nat_default (n : bytes) : bytes := if beq n [] then NAT_UNKNOWN else n.
+
+Lemma valid_natb_iff : forall n, valid_natb n = true <-> valid_nat n.
+Proof.
+  intros n. unfold valid_natb, valid_nat. rewrite !orb_true_iff, !beq_eq. tauto.
+Qed.
+
+Lemma norm_nat_eq : forall n, norm_nat n = if valid_natb n then Some (nat_default n) else None.
+Proof.
+  intros n. unfold norm_nat, valid_natb, nat_default. destruct (beq n []); [reflexivity|]. cbn [orb].
+  destruct (beq n NAT_UNKNOWN || beq n NAT_RESTRICTED || beq n NAT_UNRESTRICTED); reflexivity.
+Qed.
+
+Definition fingerprint_valid (fp : bytes) : Prop :=
+  exists b, hex_decode fp = Some b /\ (List.length b = 20%nat \/ List.length b = 32%nat).
+Lemma fingerprint_ok_iff : forall fp, fingerprint_ok fp = true <-> fingerprint_valid fp.
+Proof.
+  intros fp. unfold fingerprint_ok, fingerprint_valid. destruct (hex_decode fp) as [b|].
+  - rewrite orb_true_iff, !Nat.eqb_eq. split.
+    + intros H. exists b. split; [reflexivity|assumption].
+    + intros (b' & E & H). injection E as <-. assumption.
+  - split; [discriminate | intros (b & E & _); discriminate].
+Qed.
+
+Lemma if_err : forall {A} (b : bool) (x : A), (if b then Ok x else Err) = Err <-> b = false.
+Proof. intros A [] x; split; congruence. Qed.
+
+(* ================= ProxyPollRequest ================= *)
+Definition poll_req_of (v : json) : poll_req :=
+  {| pq_sid := fstr v "Sid"; pq_type := norm_type (fstr v "Type"); pq_nat := nat_default (fstr v "NAT");
+     pq_clients := fint v "Clients";
+     pq_pattern := match fptr v "AcceptedRelayPattern" with Some p => p | None => [] end;
+     pq_aware := match fptr v "AcceptedRelayPattern" with Some _ => true | None => false end |}.
+
+Definition poll_req_acceptb (v : json) : bool :=
+  typed_okb poll_req_schema v && major_ok (fstr v "Version") && negb (beq (fstr v "Sid") [])
+  && valid_natb (fstr v "NAT").
+
+Lemma decode_proxy_poll_eq : forall v,
+  decode_proxy_poll v = if poll_req_acceptb v then Ok (poll_req_of v) else Err.
+Proof.
+  intros v. unfold decode_proxy_poll, poll_req_acceptb, poll_req_of, fstr, fint, fptr.
+  rewrite unmarshal_eq by apply nodup_poll_req.
+  destruct (typed_okb poll_req_schema v); [|reflexivity].
+  cbv [map poll_req_schema fst snd fieldval]. rewrite norm_nat_eq. cbn [andb].
+  destruct (major_ok _); [|reflexivity]. cbn [negb andb].
+  destruct (beq (last_str (hits (bs "Sid") (entries v)) []) []); [reflexivity|]. cbn [negb andb].
+  destruct (valid_natb _); reflexivity.
+Qed.
+
+Theorem reject_iff_proxy_poll : forall v,
+  decode_proxy_poll v = Err <->
+  ~ well_typed poll_req_schema v \/ before_dot (fstr v "Version") <> bs "1" \/ fstr v "Sid" = []
+  \/ ~ valid_nat (fstr v "NAT").
+Proof.
+  intros v. rewrite decode_proxy_poll_eq, if_err. unfold poll_req_acceptb.
+  rewrite !andb_false_iff, negb_false_iff, beq_eq. unfold major_ok.
+  rewrite <- typed_okb_iff, <- valid_natb_iff, beq_neq, !not_true_iff_false. tauto.
+Qed.
+
+Theorem accept_proxy_poll : forall v r, decode_proxy_poll v = Ok r -> r = poll_req_of v.
+Proof.
+  intros v r. rewrite decode_proxy_poll_eq. destruct (poll_req_acceptb v); congruence.
+Qed.
+
+Theorem legacy_proxy_poll : forall v,
+  decode_proxy_poll_legacy v = Err <->
+  decode_proxy_poll v = Err \/ exists r, decode_proxy_poll v = Ok r /\ pq_pattern r <> [].
+Proof.
+  intros v. unfold decode_proxy_poll_legacy. destruct (decode_proxy_poll v) as [r|].
+  - destruct (beq (pq_pattern r) []) eqn:E.
+    + apply beq_eq in E. split; [discriminate|]. intros [H|(r' & H & N)]; [discriminate|]. injection H as <-. contradiction.
+    + apply beq_neq in E. split; [|reflexivity]. intros _. right. exists r. split; [reflexivity|assumption].
+  - split; [left|]; reflexivity.
+Qed.
+
+(* ================= ProxyPollResponse ================= *)
+Lemma decode_poll_response_eq : forall v,
+  decode_poll_response v =
+  if typed_okb poll_resp_schema v && negb (beq (fstr v "Status") []) then
+    if beq (fstr v "Status") CLIENT_MATCH then
+      if beq (fstr v "Offer") [] then Err
+      else Ok (fstr v "Offer", nat_default (fstr v "NAT"), fstr v "RelayURL")
+    else if beq (fstr v "Status") NO_MATCH then Ok ([], nat_default (fstr v "NAT"), fstr v "RelayURL")
+    else Err
+  else Err.
+Proof.
+  intros v. unfold decode_poll_response, fstr, nat_default.
+  rewrite unmarshal_eq by apply nodup_poll_resp.
+  destruct (typed_okb poll_resp_schema v); [|reflexivity].
+  cbv [map poll_resp_schema fst snd fieldval]. cbn [andb].
+  destruct (beq (last_str (hits (bs "Status") (entries v)) []) []); reflexivity.
+Qed.
+
+Theorem reject_iff_poll_response : forall v,
+  decode_poll_response v = Err <->
+  ~ well_typed poll_resp_schema v \/ fstr v "Status" = []
+  \/ (fstr v "Status" = CLIENT_MATCH /\ fstr v "Offer" = [])
+  \/ (fstr v "Status" <> CLIENT_MATCH /\ fstr v "Status" <> NO_MATCH).
+Proof.
+  intros v. rewrite decode_poll_response_eq, <- typed_okb_iff.
+  destruct (typed_okb poll_resp_schema v); cbn [andb]; [|split; [intros _; left; discriminate | reflexivity]].
+  destruct (beq (fstr v "Status") []) eqn:S0; cbn [negb].
+  { apply beq_eq in S0. split; [intros _; right; left; assumption | reflexivity]. }
+  apply beq_neq in S0.
+  destruct (beq (fstr v "Status") CLIENT_MATCH) eqn:S1.
+  - apply beq_eq in S1. destruct (beq (fstr v "Offer") []) eqn:O.
+    + apply beq_eq in O. split; [intros _; right; right; left; split; assumption | reflexivity].
+    + apply beq_neq in O. split; [discriminate|]. intros [H|[H|[[_ H]|[H _]]]]; try contradiction; try congruence; exfalso; apply H; reflexivity.
+  - apply beq_neq in S1. destruct (beq (fstr v "Status") NO_MATCH) eqn:S2.
+    + apply beq_eq in S2. split; [discriminate|]. intros [H|[H|[[H _]|[_ H]]]]; try contradiction; try congruence; exfalso; apply H; reflexivity.
+    + apply beq_neq in S2. split; [intros _; right; right; right; split; assumption | reflexivity].
+Qed.
+
+Theorem accept_poll_response : forall v r, decode_poll_response v = Ok r ->
+  r = ((if beq (fstr v "Status") CLIENT_MATCH then fstr v "Offer" else []),
+       nat_default (fstr v "NAT"), fstr v "RelayURL").
+Proof.
+  intros v r. rewrite decode_poll_response_eq.
+  destruct (typed_okb poll_resp_schema v && negb (beq (fstr v "Status") [])); [|discriminate].
+  destruct (beq (fstr v "Status") CLIENT_MATCH).
+  - destruct (beq (fstr v "Offer") []); [discriminate|]. intros H; injection H as <-; reflexivity.
+  - destruct (beq (fstr v "Status") NO_MATCH); [|discriminate]. intros H; injection H as <-; reflexivity.
+Qed.
+
+Theorem legacy_poll_response : forall v,
+  decode_poll_response_legacy v = Err <->
+  decode_poll_response v = Err \/ exists o n u, decode_poll_response v = Ok (o, n, u) /\ u <> [].
+Proof.
+  intros v. unfold decode_poll_response_legacy. destruct (decode_poll_response v) as [[[o n] u]|].
+  - destruct (beq u []) eqn:E.
+    + apply beq_eq in E. split; [discriminate|]. intros [H|(o' & n' & u' & H & N)]; [discriminate|]. injection H as <- <- <-. contradiction.
+    + apply beq_neq in E. split; [|reflexivity]. intros _. right. exists o, n, u. split; [reflexivity|assumption].
+  - split; [left|]; reflexivity.
+Qed.
+
+(* ================= ProxyAnswerRequest ================= *)
+Definition answer_req_acceptb (v : json) : bool :=
+  typed_okb answer_req_schema v && major_ok (fstr v "Version")
+  && negb (beq (fstr v "Sid") [] || beq (fstr v "Answer") []).
+
+Lemma decode_answer_request_eq : forall v,
+  decode_answer_request v = if answer_req_acceptb v then Ok (fstr v "Answer", fstr v "Sid") else Err.
+Proof.
+  intros v. unfold decode_answer_request, answer_req_acceptb, fstr.
+  rewrite unmarshal_eq by apply nodup_answer_req.
+  destruct (typed_okb answer_req_schema v); [|reflexivity].
+  cbv [map answer_req_schema fst snd fieldval]. cbn [andb].
+  destruct (major_ok _); [|reflexivity]. cbn [negb andb].
+  destruct (beq (last_str (hits (bs "Sid") (entries v)) []) [] || beq (last_str (hits (bs "Answer") (entries v)) []) []); reflexivity.
+Qed.
+
+Theorem reject_iff_answer_request : forall v,
+  decode_answer_request v = Err <->
+  ~ well_typed answer_req_schema v \/ before_dot (fstr v "Version") <> bs "1" \/ fstr v "Sid" = []
+  \/ fstr v "Answer" = [].
+Proof.
+  intros v. rewrite decode_answer_request_eq, if_err. unfold answer_req_acceptb.
+  rewrite !andb_false_iff, negb_false_iff, orb_true_iff, !beq_eq. unfold major_ok.
+  rewrite <- typed_okb_iff, beq_neq, !not_true_iff_false. tauto.
+Qed.
+
+Theorem accept_answer_request : forall v r, decode_answer_request v = Ok r -> r = (fstr v "Answer", fstr v "Sid").
+Proof. intros v r. rewrite decode_answer_request_eq. destruct (answer_req_acceptb v); congruence. Qed.
+
+(* ================= ProxyAnswerResponse ================= *)
+Lemma decode_answer_response_eq : forall v,
+  decode_answer_response v =
+  if typed_okb answer_resp_schema v && negb (beq (fstr v "Status") []) then Ok (beq (fstr v "Status") SUCCESS) else Err.
+Proof.
+  intros v. unfold decode_answer_response, fstr.
+  rewrite unmarshal_eq by apply nodup_answer_resp.
+  destruct (typed_okb answer_resp_schema v); [|reflexivity].
+  cbv [map answer_resp_schema fst snd fieldval]. cbn [andb].
+  destruct (beq (last_str (hits (bs "Status") (entries v)) []) []); reflexivity.
+Qed.
+
+Theorem reject_iff_answer_response : forall v,
+  decode_answer_response v = Err <-> ~ well_typed answer_resp_schema v \/ fstr v "Status" = [].
+Proof.
+  intros v. rewrite decode_answer_response_eq, if_err.
+  rewrite andb_false_iff, negb_false_iff, beq_eq, <- typed_okb_iff, not_true_iff_false. tauto.
+Qed.
+
+Theorem accept_answer_response : forall v b, decode_answer_response v = Ok b ->
+  (b = true <-> fstr v "Status" = SUCCESS).
+Proof.
+  intros v b. rewrite decode_answer_response_eq.
+  destruct (typed_okb answer_resp_schema v && negb (beq (fstr v "Status") [])); [|discriminate].
+  intros H. injection H as <-. apply beq_eq.
+Qed.
+
+(* ================= ClientPollRequest ================= *)
+Definition fp_default (fp : bytes) : bytes := if beq fp [] then DEFAULT_FINGERPRINT else fp.
+
+Definition client_req_acceptb (v : json) : bool :=
+  typed_okb client_req_schema v && negb (beq (fstr v "offer") [])
+  && fingerprint_ok (fp_default (fstr v "fingerprint")) && valid_natb (fstr v "nat").
+
+Lemma decode_client_poll_body_eq : forall v,
+  decode_client_poll_body v =
+  if client_req_acceptb v
+  then Ok (fstr v "offer", nat_default (fstr v "nat"), fp_default (fstr v "fingerprint")) else Err.
+Proof.
+  intros v. unfold decode_client_poll_body, client_req_acceptb, fp_default, fstr.
+  rewrite unmarshal_eq by apply nodup_client_req.
+  destruct (typed_okb client_req_schema v); [|reflexivity].
+  cbv [map client_req_schema fst snd fieldval]. rewrite norm_nat_eq. cbn [andb].
+  destruct (beq (last_str (hits (bs "offer") (entries v)) []) []); [reflexivity|]. cbn [negb andb].
+  destruct (fingerprint_ok _); [|reflexivity]. cbn [negb andb].
+  destruct (valid_natb _); reflexivity.
+Qed.
+
+Theorem reject_iff_client_poll_body : forall v,
+  decode_client_poll_body v = Err <->
+  ~ well_typed client_req_schema v \/ fstr v "offer" = []
+  \/ ~ fingerprint_valid (fp_default (fstr v "fingerprint")) \/ ~ valid_nat (fstr v "nat").
+Proof.
+  intros v. rewrite decode_client_poll_body_eq, if_err. unfold client_req_acceptb.
+  rewrite !andb_false_iff, negb_false_iff, beq_eq.
+  rewrite <- typed_okb_iff, <- valid_natb_iff, <- fingerprint_ok_iff, !not_true_iff_false. tauto.
+Qed.
+
+Theorem accept_client_poll_body : forall v r, decode_client_poll_body v = Ok r ->
+  r = (fstr v "offer", nat_default (fstr v "nat"), fp_default (fstr v "fingerprint")).
+Proof. intros v r. rewrite decode_client_poll_body_eq. destruct (client_req_acceptb v); congruence. Qed.
+
+Lemma split_nl_some : forall l a b, split_nl l = Some (a, b) -> l = a ++ 10 :: b /\ ~ In 10 a.
+Proof.
+  induction l as [|c l IH]; intros a b H; cbn [split_nl] in H; [discriminate|].
+  destruct (c =? 10) eqn:E.
+  - apply N.eqb_eq in E. subst c. injection H as <- <-. split; [reflexivity | intros []].
+  - apply N.eqb_neq in E. destruct (split_nl l) as [[a' b']|]; [|discriminate].
+    injection H as <- <-. destruct (IH a' b' eq_refl) as [-> N']. split; [reflexivity|].
+    intros [H|H]; [congruence|contradiction].
+Qed.
+
+Lemma split_nl_none : forall l, split_nl l = None <-> ~ In 10 l.
+Proof.
+  induction l as [|c l IH]; cbn [split_nl].
+  - split; [intros _ [] | reflexivity].
+  - destruct (c =? 10) eqn:E.
+    + apply N.eqb_eq in E. subst c. split; [discriminate|]. intros H. exfalso. apply H. left. reflexivity.
+    + apply N.eqb_neq in E. destruct (split_nl l) as [[a' b']|].
+      * split; [discriminate|]. intros H. exfalso. destruct IH as [_ IH].
+        assert (None = None :> option (bytes * bytes)) by reflexivity.
+        enough (@None (bytes * bytes) = Some (a', b')) by discriminate.
+        symmetry. apply IH. intros Hin. apply H. right. assumption.
+      * split; [|reflexivity]. intros _ [H|H]; [congruence|]. destruct IH as [IH _]. apply (IH eq_refl H).
+Qed.
